@@ -21,10 +21,13 @@ def _box(lv):
 
 def _form(val, k, puan):
     """the three accepted value forms, rotated"""
-    k = k % 3
+    import numpy
+    k = k % 5
     if k == 0: return int(val)
     if k == 1: return (int(val), int(val))
-    return puan.Bounds(int(val), int(val))
+    if k == 2: return puan.Bounds(int(val), int(val))
+    if k == 3: return numpy.int64(val)
+    return (numpy.int64(val), int(val))
 
 def _valid(m):
     return (not proj.is_var(m)) and m.errors() == []
@@ -70,7 +73,7 @@ def drv_evaluate(case):
     for k, asg in enumerate(box):
         point(asg, {}, k)
     # the statement does not restrict the given values to the declared bounds (variable.evaluate is documented with values outside)
-    for k in range(min(3, len(box))):
+    for k in range(min(3, len(box)) if lv else 0):
         asg = dict(rng.choice(box))
         v = rng.choice(lv)
         asg[v.id] = proj.I(v.bounds.upper) + 1 + k if k % 2 == 0 else proj.I(v.bounds.lower) - 1 - k
